@@ -124,6 +124,18 @@ def main(tier, seed):
                     t_, m_ = rng.choice(cands)
                     kw = "default" if b == "cpp" else "new"
                     m_.params = [(kw, ("prim", "u8")), (kw + "_", ("prim", "u16"))] + m_.params
+            if i % 7 == 5 and b == "cpp":
+                # directed probe (F39): callback types the C++ fn_traits glue cannot convert
+                ops = [t for t in prog.types() if t.kind == "opaque"]
+                if ops:
+                    which = rng.choice(["optarg", "optret", "slicearg"])
+                    cbt = {"optarg": ("cb", [("opt", ("prim", "u8"), "std")], ("prim", "i32"), False),
+                           "optret": ("cb", [("prim", "u8")], ("opt", ("prim", "u32"), "std"), False),
+                           "slicearg": ("cb", [("slice", "i16", False, None, "std")], ("unit",), False)}[which]
+                    pm = tooltier.spec.Method("vf_f39", None, [("f", cbt)], ("prim", "u8"))
+                    t_ = rng.choice(ops)
+                    pm.owner = t_
+                    t_.methods.append(pm)
             if i % 2:
                 tooltier.decorate(prog, rng, p_item=0.2)
             if i % 5 == 2:
@@ -158,26 +170,30 @@ def main(tier, seed):
                 check_cpp(os.path.join(d, "cpp"), viol, st, rng)
             else:
                 check_js(os.path.join(d, "js"), viol, st)
-        if i % 3 == 1:
-            # C-only leg: the C backend also accepts traits and `impl Trait` parameters (cpp does not)
-            prog = tooltier.backend_program("c", seed, i, avoid_known=True, size="small", salt="c09tr")
-            if tooltier.add_traits(prog, rng, "c"):
+        if i % 3:
+            # trait legs: the C backend also accepts traits and `impl Trait` parameters (cpp does not); Kotlin accepts them with Send / Sync
+            # supertraits (its output cannot be compiled here, the macro expansion of what it accepts can)
+            tb = "c" if i % 3 == 1 else "kotlin"
+            prog = tooltier.backend_program(tb, seed, i, avoid_known=True, size="small", salt="c09tr")
+            if tooltier.add_traits(prog, rng, tb):
                 emit_rust.assign_abi_names(prog)
-                d = toolrun.fresh_dir(toolrun.workdir("c09", "p%d_ctr" % i))
-                src, cfg = tooltier.write_program(prog, d, "")
-                rc, o, e = toolrun.run_tool("c", src, os.path.join(d, "c"), config_file=cfg)
+                d = toolrun.fresh_dir(toolrun.workdir("c09", "p%d_%str" % (i, tb)))
+                src, cfg = tooltier.write_program(prog, d, tooltier.STD_CONFIG[tb])
+                rc, o, e = toolrun.run_tool(tb, src, os.path.join(d, tb), config_file=cfg)
                 kind, det = toolrun.classify_tool(rc, e)
                 if kind != "ok":
-                    inconc.append("p%d/c (traits) not accepted (%s): %s" % (i, kind, str(det)[:160]))
+                    inconc.append("p%d/%s (traits) not accepted (%s): %s" % (i, tb, kind, str(det)[:160]))
                 else:
-                    shp += ["c|%s" % s for s in (tooltier.spec.method_sig(t, m) for t, m in prog.methods())]
+                    shp += ["%s|%s" % (tb, s) for s in (tooltier.spec.method_sig(t, m) for t, m in prog.methods())]
+                    shp += ["%s|trait:%s" % (tb, re.sub(r"\s+", " ", l.strip())) for l in "".join(m_.extra_src for m_ in prog.modules).splitlines() if "fn tm" in l or "pub trait" in l]
                     rc, o, e = toolrun.rustc_lib(src, os.path.join(d, "lib.rlib"), crate_type="rlib")
                     st["rustc"] += 1
                     if rc != 0:
                         viol.append(("rustc", "lib.rs", "macro expansion (traits) does not type-check: " + e[:900], {"src": src}))
                     else:
                         os.remove(os.path.join(d, "lib.rlib"))
-                    check_c(os.path.join(d, "c"), viol, st)
+                    if tb == "c":
+                        check_c(os.path.join(d, "c"), viol, st)
         return i, viol, st, inconc, shp
 
     results = pmap(one, range(nprog))
@@ -234,6 +250,8 @@ def main(tier, seed):
                 key = {"kind": "rustc", "signature": "parameter named `this` on a method taking self"}
             elif isinstance(i, int) and i % 7 == 3 and SIBLING.search(msg):
                 key = {"kind": lang, "signature": "escaped keyword parameter collides with a sibling parameter spelled <keyword>_"}
+            elif lang == "cpp" and isinstance(i, int) and i % 7 == 5 and "fn_traits" in msg and "vf_f39" in msg:
+                key = {"kind": "cpp", "signature": "callback with an Option argument / Option return / primitive-slice argument: fn_traits cannot convert it"}
             elif lang in ("cpp", "c") and isinstance(i, int) and i % 5 == 4 and (KW_LINE.search(msg) or KW_MEMBER.search(msg)):
                 key = {"kind": lang, "signature": "struct field named after a C/C++ keyword"}
             chk.violation("p%s_%s_%s" % (i, lang, re.sub(r"\W", "_", f)[:30]), "program p%s, %s %s: %s" % (i, lang, f, msg[:300]),
